@@ -238,6 +238,11 @@ processors:
           p0: 0
           p1: 1
           p2: 2
+          p3: 3
+          p4: 4
+          p5: 5
+          p6: 6
+          p7: 7
   TooMany:
     processor: GenerateResponse
     parameters:
